@@ -34,12 +34,12 @@ fn main() {
         nshards: num("--nshards", 1).max(1),
         rep: Report::new(cmd, &lane),
     };
-    let t0 = std::time::Instant::now();
+    let t0 = std::time::SystemTime::now();
     if !clvlib::dispatch(&mut ctx) {
         eprintln!("unknown property {}", cmd);
         std::process::exit(2);
     }
-    let wall = t0.elapsed().as_secs_f64();
+    let wall = t0.elapsed().map(|d| d.as_secs_f64()).unwrap_or(0.0);
     ctx.rep.add("wall_ms", (wall * 1000.0) as u64);
     let json = ctx.rep.to_json();
     match arg(&args, "--out") {
